@@ -181,6 +181,20 @@ add("C11", "E1",
     "Trusted: the file constructors in mc/checks/c11.py and the report parser mc/ref/report.py.",
     "DESIGN.md §4 C11")
 
+add("C13", "E1",
+    "exhaustive enumeration of the finite product corpus x models x options; report parsed back and compared with the machine-readable output",
+    "(kernel corpus: shipped examples and test kernels + generated kernels with unknown mnemonics, "
+    "entries lacking only throughput, zero-pressure and zero-latency instructions, no/several LCDs, "
+    "port sums >= 10 and >= 100, 100 and 101 unmarked lines) x (models; quick: 2 per ISA + the ISA "
+    "default without --arch; thorough: all) x {--fixed, optimal} x {--ignore-unknown or not} is "
+    "enumerated completely; every run goes through osaca.run with --yaml-out, the text table is parsed "
+    "back by column position and every port/CP/LCD cell, the summary row, X marks, the missing-data "
+    "warning and its count, the arch and length warnings are compared with the YAML output; the LCD "
+    "list and the LCD column with an independent KernelDG run.",
+    "Trusted: mc/ref/report.py (layout of the text report). Cells are compared at the precision the "
+    "text shows.",
+    "DESIGN.md §4 C13")
+
 NOT_YET = {}
 
 def main():
